@@ -34,6 +34,8 @@ func (o c20Op) String() string {
 		return fmt.Sprintf("Delete(%q)", o.Key)
 	case "reset":
 		return "Reset()"
+	case "fill31":
+		return "Set(k00..k30) [31 parameters: above the size the pool keeps]"
 	case "renew0":
 		return "Destroy();NewContext() [context released as is: parameters set, no node, no path]"
 	}
@@ -48,7 +50,7 @@ func c20Alphabet() []c20Op {
 		}
 		ops = append(ops, c20Op{"del", k, ""})
 	}
-	return append(ops, c20Op{K: "reset"}, c20Op{K: "renew"}, c20Op{K: "renew0"}, c20Op{"del", "zz", ""})
+	return append(ops, c20Op{K: "reset"}, c20Op{K: "renew"}, c20Op{K: "renew0"}, c20Op{"del", "zz", ""}, c20Op{K: "fill31"})
 }
 
 type dummyNode struct{}
@@ -66,7 +68,10 @@ func errStr(e error) string {
 
 // c20Verify compares every accessor with the map model and strconv.
 func c20Verify(ctx *types.Context, model map[string]string) (class, obs, exp string, n int64) {
-	var ps types.Params = ctx
+	var ps types.Params = ctx.Params()
+	if ctx.Count() != len(model) {
+		return "accessor-disagree:Count", fmt.Sprintf("Context.Count()=%d", ctx.Count()), fmt.Sprintf("%d", len(model)), n
+	}
 	if ps.Count() != len(model) {
 		return "accessor-disagree:Count", fmt.Sprintf("Count()=%d", ps.Count()), fmt.Sprintf("%d", len(model)), n
 	}
@@ -201,8 +206,19 @@ func c20Run(ops []c20Op) (ctx *types.Context, model map[string]string, class, ob
 	model = map[string]string{}
 	for _, o := range ops {
 		switch o.K {
+		case "fill31":
+			for i := 0; i < 31; i++ {
+				k := fmt.Sprintf("k%02d", i)
+				ctx.Set(k, "v")
+				model[k] = "v"
+			}
 		case "set":
-			ctx.Set(o.Key, o.Val)
+			// alternately through the context itself and through the Params() view handed to handlers
+			if len(o.Val)%2 == 0 {
+				ctx.Params().Set(o.Key, o.Val)
+			} else {
+				ctx.Set(o.Key, o.Val)
+			}
 			model[o.Key] = o.Val
 		case "del":
 			ctx.Delete(o.Key)
@@ -253,11 +269,34 @@ func c20Expand(raw json.RawMessage) (any, error) {
 			hs = append(hs, o.String())
 		}
 		c := explore.Child{Op: k}
-		ctx, model, class, obs, exp := c20Run(full)
+		var ctx *types.Context
+		var model map[string]string
+		var class, obs, exp string
+		if pv, bad := Guard(func() { ctx, model, class, obs, exp = c20Run(full) }); bad {
+			class, obs, exp = "panic", fmt.Sprintf("panic: %v", pv), "no panic"
+			ctx, model = types.NewContext(), map[string]string{}
+		}
 		if class == "" {
 			var n int64
 			class, obs, exp, n = c20Verify(ctx, model)
 			c.Probes = n
+		}
+		if class == "" && len(model) > 1 {
+			// Range behaves as on a map also when the callback deletes entries it has not reached yet
+			ctx2, _, _, _, _ := c20Run(full)
+			calls := 0
+			ctx2.Range(func(k, v string) {
+				calls++
+				for other := range model {
+					if other != k {
+						ctx2.Delete(other)
+					}
+				}
+			})
+			if calls != 1 || ctx2.Count() != 1 {
+				class, obs, exp = "range-not-like-a-map", fmt.Sprintf("callback ran %d times, Count()=%d afterwards", calls, ctx2.Count()), "1 call (the callback deleted every other entry during its first call), Count()=1"
+			}
+			ctx2.Destroy()
 		}
 		if class != "" {
 			c.Viols = append(c.Viols, explore.Violation{Property: "C20", Clause: "C20.accessors", Class: class, History: hs, Probe: "all accessors on keys \"\", a, b, zz", Observed: obs, Expected: exp})
